@@ -3,6 +3,14 @@ MC_NOTE = ("Trusted: CPython 3.12, numpy/pandas/pydantic as installed, the laws 
            "(random.sample uniform, random.choices / np.random.choice categorical), the reference models in engine/refs.py. "
            "Small-scope bounds as stated in the evidence file; nothing is claimed beyond them.")
 TABLE = {
+ "C03": dict(level="model_checking", engine="chooser+lockstep",
+   technique="exhaustive enumeration of ballot lists x winners x thresholds x all random.sample outcomes (exact selection law); round-by-round vote accounting on all STV runs",
+   text="The transfer functions are called directly on every ordered ballot list of a bounded family for every winner and threshold; for the random rule every outcome of the selection is explored and the exact law of the selected sub-collection (path probabilities as Fractions) is compared with 'every (tally-threshold)-subset of the transferable ballots equally likely'. Every STV run of the C02 family is additionally checked round by round for conservation (drop = threshold consumed + exhausted weight).",
+   note=MC_NOTE),
+ "C07": dict(level="model_checking", engine="chooser",
+   technique="exhaustive exploration of all tiebreak / random-transfer outcomes of STV on bounded profile families; axiom oracle over all candidate subsets",
+   text="For every profile of the family, every m, both election modes and both transfer rules, every path of the RNG choice tree is executed on the real code and the Droop proportionality inequality is evaluated for every non-empty proper candidate subset; the IRV majority criterion likewise. The oracle uses only the ballots.",
+   note=MC_NOTE),
  "C01": dict(level="model_checking", engine="chooser+lockstep",
    technique="exhaustive exploration of all RNG outcomes of every rule on bounded profile families; per-round invariants + reference tie oracles",
    text="Every rule class x every profile of the stated families x every configuration x every outcome of every random draw is executed on the real code. On every path: termination within a step horizon, exactly m winners, the elected/remaining/eliminated partition and status monotonicity at every recorded round, and exception discipline (ValueError exactly when a reference model reports a tie straddling the last seat with tiebreak None; nothing else escapes). Genuine defects found are listed in known_findings.json by signature.",
